@@ -551,7 +551,12 @@ impl<'a> Ev<'a> {
                 "calls": body_calls, "nsites": self.sites.len() - sites_before,
                 "diverges": diverges_expr(&arm.body), "value": if size(&v) > 300 { json!({"k":"big"}) } else { v.clone() },
             }));
-            arms_v.push(json!({"pat":tok(&arm.pat),"variants":vs,"v":v}));
+            let mut av = json!({"pat":tok(&arm.pat),"variants":vs,"v":v});
+            if let Some(gv) = &g {
+                // the arm's `if` guard belongs to the value: a rule that picks "the arm for variant V" must know it is conditional
+                av["guard"] = gv.clone();
+            }
+            arms_v.push(av);
             envs.push((self.env.clone(), diverges_expr(&arm.body)));
         }
         if self.silent == 0 {
